@@ -89,4 +89,103 @@ structure Local (orig : Int) (sh : Shared) (th : Thread) (sh' : Shared) (th' : T
   goneStable : sh.inner = -1 → sh'.inner = -1
   leaveDrop : inDrop th = 1 → inDrop th' = 0 → sh'.inner = -1 ∨ atClose th = 1
 
+macro "fdc_close" : tactic => `(tactic|
+  (constructor <;>
+    (try simp_all [held, inDrop, atClose, pendTake, resTakes, Thread.wf, Thread.finish, Pc.wf, Res.wf, b2n,
+      Act.isTook, Act.isDropCas, Act.isCloseOf, Res.isTakeSome, List.countP_cons, List.countP_nil]) <;>
+    (try omega) <;>
+    (try (intro r hr; rcases hr with hr | rfl <;> simp_all [Res.wf]))))
+
+theorem stepThread_local (orig : Int) (ho : orig ≠ -1) {sh sh' : Shared} {th th' : Thread} {acts : List Act}
+    (h : stepThread sh th = some (sh', th', acts)) (hin : sh.inner = orig ∨ sh.inner = -1)
+    (hw : th.wf orig) : Local orig sh th sh' th' acts := by
+  obtain ⟨prog, handles, pc, results⟩ := th
+  obtain ⟨inner, strong, nextDup⟩ := sh
+  obtain ⟨hpc, hres⟩ := hw
+  simp only at hin hpc hres
+  cases pc with
+  | idle =>
+    cases prog with
+    | nil =>
+      cases handles with
+      | zero => simp [stepThread] at h
+      | succ n =>
+        simp only [stepThread, Option.some.injEq, Prod.mk.injEq] at h
+        obtain ⟨rfl, rfl, rfl⟩ := h
+        fdc_close
+    | cons op rest =>
+      cases handles with
+      | zero => simp [stepThread] at h
+      | succ n =>
+        cases op <;>
+        · simp only [stepThread, Option.some.injEq, Prod.mk.injEq] at h
+          obtain ⟨rfl, rfl, rfl⟩ := h
+          fdc_close
+  | takeLoad =>
+    simp only [stepThread] at h
+    split at h <;>
+    · simp only [Option.some.injEq, Prod.mk.injEq] at h
+      obtain ⟨rfl, rfl, rfl⟩ := h
+      fdc_close
+  | takeCas v =>
+    simp only [stepThread] at h
+    split at h <;>
+    · simp only [Option.some.injEq, Prod.mk.injEq] at h
+      obtain ⟨rfl, rfl, rfl⟩ := h
+      fdc_close
+  | takeDec r =>
+    simp only [stepThread, decrement] at h
+    cases r <;> split at h <;>
+    first
+    | (simp at h; done)
+    | (simp only [Option.some.injEq, Prod.mk.injEq] at h
+       obtain ⟨rfl, rfl, rfl⟩ := h
+       fdc_close)
+  | getLoad =>
+    simp only [stepThread, Option.some.injEq, Prod.mk.injEq] at h
+    obtain ⟨rfl, rfl, rfl⟩ := h
+    by_cases hi : inner = -1 <;> fdc_close
+  | dupLoad =>
+    simp only [stepThread] at h
+    split at h <;>
+    · simp only [Option.some.injEq, Prod.mk.injEq] at h
+      obtain ⟨rfl, rfl, rfl⟩ := h
+      fdc_close
+  | dupSys v =>
+    simp only [stepThread, Option.some.injEq, Prod.mk.injEq] at h
+    obtain ⟨rfl, rfl, rfl⟩ := h
+    fdc_close
+  | dupClose n =>
+    simp only [stepThread, Option.some.injEq, Prod.mk.injEq] at h
+    obtain ⟨rfl, rfl, rfl⟩ := h
+    fdc_close
+  | dropDec =>
+    simp only [stepThread, decrement] at h
+    split at h <;>
+    first
+    | (simp at h; done)
+    | (simp only [Option.some.injEq, Prod.mk.injEq] at h
+       obtain ⟨rfl, rfl, rfl⟩ := h
+       fdc_close)
+  | innerDrop k =>
+    simp only [stepThread, Option.some.injEq, Prod.mk.injEq] at h
+    obtain ⟨rfl, rfl, rfl⟩ := h
+    fdc_close
+  | dropLoad k =>
+    simp only [stepThread] at h
+    split at h <;>
+    · simp only [Option.some.injEq, Prod.mk.injEq] at h
+      obtain ⟨rfl, rfl, rfl⟩ := h
+      fdc_close
+  | dropCas k v =>
+    simp only [stepThread] at h
+    split at h <;>
+    · simp only [Option.some.injEq, Prod.mk.injEq] at h
+      obtain ⟨rfl, rfl, rfl⟩ := h
+      fdc_close
+  | dropClose k v =>
+    simp only [stepThread, Option.some.injEq, Prod.mk.injEq] at h
+    obtain ⟨rfl, rfl, rfl⟩ := h
+    fdc_close
+
 end Rustbus.FdConc
